@@ -135,6 +135,14 @@ from .program import BlackbirdProgram
 from ._version import __version__
 
 
+def _with_final_newline(data):
+    """The grammar ends every array row with a newline; make sure the last
+    line of the script is terminated so that a missing final newline is harmless."""
+    if data.size and data.strdata[-1] not in "\r\n":
+        return antlr4.InputStream(data.strdata + "\n")
+    return data
+
+
 def load(filename):
     """Deserialize a blackbird program from a file to a
     :class:`BlackbirdProgram` object.
@@ -146,7 +154,7 @@ def load(filename):
         BlackbirdProgram: parsed representation of the program
     """
     cwd = os.path.dirname(filename)
-    data = antlr4.FileStream(filename)
+    data = _with_final_newline(antlr4.FileStream(filename))
     return parse(data, cwd=cwd)
 
 
@@ -160,7 +168,7 @@ def loads(string):
     Returns:
         BlackbirdProgram: parsed representation of the program
     """
-    data = antlr4.InputStream(string)
+    data = _with_final_newline(antlr4.InputStream(string))
     return parse(data)
 
 
